@@ -34,6 +34,8 @@ pub(crate) struct RawOp<M: ?Sized> {
     // The cancelled flag indicates the op has been cancelled.
     cancelled: bool,
     result: PushEntry<Option<Waker>, io::Result<usize>>,
+    #[cfg(compio_verif)]
+    verif_guard: crate::verif::FreeGuard,
     pub(crate) carrier: M,
 }
 
@@ -213,6 +215,8 @@ impl ErasedKey {
             extra,
             cancelled: false,
             result: PushEntry::Pending(None),
+            #[cfg(compio_verif)]
+            verif_guard: Default::default(),
             carrier: Carrier::new(op, driver_ty),
         };
         let mut inner = ThinCell::new(raw_op);
@@ -221,6 +225,12 @@ impl ErasedKey {
         // - Carrier is being pinned by ThinCell, it will have a stable address until
         //   move out
         unsafe { inner.borrow_unchecked().carrier.init() };
+        #[cfg(compio_verif)]
+        {
+            let addr = inner.as_ptr() as *const () as u64;
+            unsafe { inner.borrow_unchecked().verif_guard.0.set(addr) };
+            crate::verif::emit(crate::verif::KEY_NEW, addr, 0);
+        }
         Self {
             inner: unsafe { inner.unsize(|p| p as *const Inner<RawOp<dyn Carry>>) },
         }
@@ -304,6 +314,12 @@ impl ErasedKey {
 
     /// Complete the op and wake up the future if a waker is set.
     pub(crate) fn set_result(&self, res: io::Result<usize>) {
+        #[cfg(compio_verif)]
+        crate::verif::emit(
+            crate::verif::SET_RESULT,
+            self.as_raw() as u64,
+            crate::verif::res_code(&res),
+        );
         let mut this = self.borrow();
         {
             let RawOp { extra, carrier, .. } = &mut *this;
